@@ -194,7 +194,7 @@ def main(tier, seed):
                     K = 1.0 / math.sqrt(0.2 * p_t * 3.0 * p_c)
                     par = {"n_m": n_m, "K": K} if model == "Langmuir" else {"n_m": n_m, "K": K, "t": 0.7}
                     pgrid = numpy.geomspace(0.02 / K, min(60.0 / K, 0.98 * p_sat), 60)
-                    sig = {"site": "enthalpy_sorption_whittaker", "input": "PointIsotherm", "model": model, "stored": st["name"]}
+                    sig = {"site": "enthalpy_sorption_whittaker", "input": "PointIsotherm", "model": model, "stored_temperature_unit": st["temperature_unit"]}
                     key = ("whit-point", aname, temp, model, st["name"])
                     tg = [0.3 * p_t, (p_t ** 2 * p_hi) ** (1 / 3), math.sqrt(p_t * p_hi), 0.8 * p_hi]
                     loads = [float(v) for v in forward(model, par, tg)]
